@@ -143,6 +143,13 @@ class Reporter:
             cov.update(extra)
         if not cov["samples"]:
             cov["samples"] = ["(no sample recorded)"]
+        if cov["transitions"] == 0:
+            # trace-only checks (no design run): the TLC runs are the trace-specification runs; count their states
+            tr = [r for r in cov["tlc_runs"] if str(r.get("label", "")).startswith("trace:")]
+            cov["transitions"] = int(sum(r.get("states_generated", 0) for r in tr))
+            cov["states"] = cov["states"] or cov["transitions"]
+            if tr:
+                cov["states_counted_from"] = "trace-specification runs (this check has no design run)"
         # generic keys as well (measured): evaluations = total clause evaluations
         cov["evaluations"] = int(sum(cov["clauses_evaluated"].values()))
         ev = {"property_id": self.pid, "tier": self.tier, "seed": seed(), "level": self.level,
